@@ -2,13 +2,17 @@
 
 Ties:
   T  Gen/XyzElements.v (Element[name], Element(z).symbol), Gen/Units.v (DistanceUnit members incl. aliases)
-  S  Gen/ScaleExpr.v: fail-closed ast extraction of the argument of the `scale(...)` call guarded by
-     `DistanceUnit[source_units] != DistanceUnit.Angstrom` in yield_from_xyz and yield_from_mol2
+  S  Gen/ScaleExpr.v: fail-closed ast extraction, from yield_from_xyz and yield_from_mol2, of (a) the argument of the
+     `scale(...)` call guarded by `DistanceUnit[source_units] != DistanceUnit.Angstrom` and (b) the body of the block
+     loop in continuation form: every path to `yield`, with the conditions it depends on opaque (Model.XyzEdit.tail)
   H  writer: random geometries / ensembles -> dumps_xyz compared character by character with the model's
-     text inside Coq; reader: the written text read back by loads_all_xyz compared with the model inside Coq.
-Oracle: round trip (count, order, elements, coordinates to the written precision, frame by frame), and for
-every DistanceUnit member a geometry expressed in that unit (physical constants, not the table) read with
-source_units=U by the xyz and the mol2 reader must come back in Angstrom.
+     text inside Coq; reader: the written text read back by loads_all_xyz compared with the model inside Coq;
+     sessions: write / edit in place / write again on ONE object, every text compared with the model's own state
+     evolution (Model.XyzEdit.run_session) inside Coq.
+Oracle: round trip (count, order, elements, coordinates to the written precision, frame by frame) of every write, judged
+against the state the object has at the time of that write; and for every DistanceUnit member a geometry expressed in
+that unit (physical constants, not the table) read with source_units=U through every class-level entry point of the
+xyz and the mol2 reader x target class x charge-type header must come back in Angstrom, block by block.
 """
 import ast, io, os, math, inspect, json, warnings
 from fractions import Fraction
@@ -32,12 +36,18 @@ def gen_units_text(ml):
             "Definition units : list (string * Q * bool) := [\n" + ";\n".join(rows) + "\n].\n")
 
 
-# ------------------------------------------------------------------ tie S: scale expression
+# ------------------------------------------------------------------ tie S: scale expression and the paths to the yield
 class Refuse(Exception):
     pass
 
 
-def _is_unit_lookup(n):
+MAX_CONDS = 8
+_LOOPS = (ast.For, ast.While, ast.AsyncFor)
+_COMPOUND = (ast.For, ast.While, ast.AsyncFor, ast.With, ast.AsyncWith, ast.Try, ast.FunctionDef, ast.AsyncFunctionDef,
+             ast.ClassDef) + ((ast.Match,) if hasattr(ast, "Match") else ()) + ((ast.TryStar,) if hasattr(ast, "TryStar") else ())
+
+
+def _is_raw_lookup(n):
     return (isinstance(n, ast.Subscript) and isinstance(n.value, ast.Name) and n.value.id == "DistanceUnit"
             and isinstance(n.slice, ast.Name) and n.slice.id == "source_units")
 
@@ -47,75 +57,242 @@ def _is_angstrom(n):
             and n.attr in ("Angstrom", "A"))
 
 
-def _expr(n):
-    if isinstance(n, ast.Attribute) and n.attr == "value" and _is_unit_lookup(n.value):
-        return "SVal"
-    if isinstance(n, ast.Constant) and isinstance(n.value, (int, float)) and not isinstance(n.value, bool):
-        return f"(SConst {cq_Q(Fraction(n.value))})"
-    if isinstance(n, ast.UnaryOp) and isinstance(n.op, ast.USub) and isinstance(n.operand, ast.Constant):
-        return f"(SConst {cq_Q(-Fraction(n.operand.value))})"
-    if isinstance(n, ast.BinOp) and isinstance(n.op, ast.Mult):
-        return f"(SMul {_expr(n.left)} {_expr(n.right)})"
-    if isinstance(n, ast.BinOp) and isinstance(n.op, ast.Div):
-        return f"(SDiv {_expr(n.left)} {_expr(n.right)})"
-    if isinstance(n, ast.BinOp) and isinstance(n.op, ast.Pow):
-        r = n.right
-        if (isinstance(r, ast.UnaryOp) and isinstance(r.op, ast.USub) and isinstance(r.operand, ast.Constant)
-                and r.operand.value == 1) or (isinstance(r, ast.Constant) and r.value == -1):
-            return f"(SInv {_expr(n.left)})"
-    raise Refuse("scale argument outside the grammar: " + ast.dump(n)[:200])
+def _bound_names(fn):
+    """name -> list of binding nodes inside fn (assignments of every kind, loop / with / except / import targets)."""
+    out = {}
+
+    def add(t, node):
+        if isinstance(t, ast.Name):
+            out.setdefault(t.id, []).append(node)
+        elif isinstance(t, (ast.Tuple, ast.List)):
+            for e in t.elts:
+                add(e, node)
+        elif isinstance(t, ast.Starred):
+            add(t.value, node)
+
+    for n in ast.walk(fn):
+        if isinstance(n, ast.Assign):
+            for t in n.targets:
+                add(t, n)
+        elif isinstance(n, (ast.AugAssign, ast.AnnAssign, ast.NamedExpr)):
+            add(n.target, n)
+        elif isinstance(n, (ast.For, ast.AsyncFor, ast.comprehension)):
+            add(n.target, n)
+        elif isinstance(n, (ast.With, ast.AsyncWith)):
+            for it in n.items:
+                if it.optional_vars is not None:
+                    add(it.optional_vars, n)
+        elif isinstance(n, ast.ExceptHandler) and n.name:
+            out.setdefault(n.name, []).append(n)
+        elif isinstance(n, (ast.Import, ast.ImportFrom)):
+            for a in n.names:
+                out.setdefault((a.asname or a.name).split(".")[0], []).append(n)
+        elif isinstance(n, (ast.Global, ast.Nonlocal)):
+            for nm in n.names:
+                out.setdefault(nm, []).append(n)
+        elif isinstance(n, (ast.FunctionDef, ast.AsyncFunctionDef, ast.ClassDef)) and n is not fn:
+            out.setdefault(n.name, []).append(n)
+    return out
+
+
+class _Extractor:
+    """Fail-closed reading of ONE reader generator (yield_from_xyz / yield_from_mol2):
+       * the argument of its only `<obj>.scale(...)` call, over the grammar of Model.XyzText.sexpr;
+       * whether that call sits under `DistanceUnit[source_units] != DistanceUnit.Angstrom`;
+       * the body of the block loop in continuation form (Model.XyzEdit.tail): every path from the top of the loop
+         body to a `yield <obj>`, with the conditions it depends on left opaque.
+       A name bound once, before the loop, to `DistanceUnit[source_units]` is read as that lookup (hoisting the lookup
+       is a harmless rewrite)."""
+
+    def __init__(self, path, funcname):
+        self.fname = funcname
+        tree = ast.parse(open(path).read())
+        fns = [n for n in ast.walk(tree) if isinstance(n, ast.FunctionDef) and n.name == funcname]
+        if len(fns) != 1:
+            raise Refuse(f"{funcname}: {len(fns)} definitions")
+        self.fn = fn = fns[0]
+        self.parent = {}
+        for n in ast.walk(fn):
+            for c in ast.iter_child_nodes(n):
+                self.parent[c] = n
+        binds = _bound_names(fn)
+        for nm in ("source_units", "DistanceUnit"):
+            if nm in binds:
+                raise Refuse(f"{funcname}: {nm} rebound")
+        # the block loop: the only loop that contains the yields
+        if any(isinstance(n, (ast.YieldFrom, ast.Await)) for n in ast.walk(fn)):
+            raise Refuse(f"{funcname}: yield from / await")
+        yields = [n for n in ast.walk(fn) if isinstance(n, ast.Yield)]
+        if not yields:
+            raise Refuse(f"{funcname}: no yield")
+        loops = [n for n in ast.walk(fn) if isinstance(n, _LOOPS) and any(y in set(ast.walk(n)) for y in yields)]
+        outer = [l for l in loops if not any(l is not m and l in set(ast.walk(m)) for m in loops)]
+        if len(outer) != 1 or not isinstance(outer[0], ast.For) or outer[0].orelse:
+            raise Refuse(f"{funcname}: the yields are not inside exactly one for loop")
+        self.loop = loop = outer[0]
+        inloop = set(ast.walk(loop))
+        if not all(y in inloop for y in yields):
+            raise Refuse(f"{funcname}: a yield outside the block loop")
+        # aliases of the unit lookup
+        self.aliases = set()
+        top_before = []
+        for st in fn.body:
+            if st is loop or loop in set(ast.walk(st)):
+                break
+            top_before.append(st)
+        for nm, nodes in binds.items():
+            if len(nodes) == 1 and isinstance(nodes[0], ast.Assign) and len(nodes[0].targets) == 1 \
+                    and isinstance(nodes[0].targets[0], ast.Name) and _is_raw_lookup(nodes[0].value) \
+                    and any(nodes[0] is st for st in top_before):
+                self.aliases.add(nm)
+        # the scale call
+        calls = [n for n in ast.walk(fn) if isinstance(n, ast.Call) and isinstance(n.func, ast.Attribute) and n.func.attr == "scale"]
+        if len(calls) != 1:
+            raise Refuse(f"{funcname}: {len(calls)} scale(...) calls (exactly one expected)")
+        self.call = call = calls[0]
+        if call not in inloop:
+            raise Refuse(f"{funcname}: the scale call is outside the block loop")
+        if len(call.args) != 1 or call.keywords or not isinstance(call.func.value, ast.Name):
+            raise Refuse(f"{funcname}: scale call shape")
+        self.target = target = call.func.value.id
+        for y in yields:
+            if not (isinstance(y.value, ast.Name) and y.value.id == target):
+                raise Refuse(f"{funcname}: the scaled object is not the yielded one")
+            st = self.parent.get(y)
+            if not (isinstance(st, ast.Expr) and st.value is y):
+                raise Refuse(f"{funcname}: a yield that is not a statement")
+        if not any(b in inloop for b in binds.get(target, [])):
+            raise Refuse(f"{funcname}: {target} is not built inside the block loop")
+        # the statement that scales: the call itself, or the unit guard holding just it
+        est = self.parent.get(call)
+        if not (isinstance(est, ast.Expr) and est.value is call):
+            raise Refuse(f"{funcname}: the scale call is not a statement")
+        self.scale_stmt, self.guarded = est, False
+        par = self.parent.get(est)
+        if isinstance(par, ast.If) and self.mentions_unit(par.test):
+            t = par.test
+            ok = (isinstance(t, ast.Compare) and len(t.ops) == 1 and isinstance(t.ops[0], (ast.NotEq, ast.IsNot))
+                  and ((self.is_lookup(t.left) and _is_angstrom(t.comparators[0]))
+                       or (_is_angstrom(t.left) and self.is_lookup(t.comparators[0]))))
+            if not ok or par.orelse or len(par.body) != 1 or par.body[0] is not est:
+                raise Refuse(f"{funcname}: guard of the scale call is not `DistanceUnit[source_units] != DistanceUnit.Angstrom`")
+            self.scale_stmt, self.guarded = par, True
+        self.conds = {}
+        self.cond_text = []
+        self.expr = self.sexpr(call.args[0])
+        self.tail = self.conv(list(loop.body), False)
+
+    # -- unit lookup and the scale argument
+    def is_lookup(self, n):
+        return _is_raw_lookup(n) or (isinstance(n, ast.Name) and n.id in self.aliases)
+
+    def mentions_unit(self, n):
+        return any(isinstance(c, ast.Name) and (c.id in ("source_units", "DistanceUnit") or c.id in self.aliases) for c in ast.walk(n))
+
+    def sexpr(self, n):
+        if isinstance(n, ast.Attribute) and n.attr == "value" and self.is_lookup(n.value):
+            return "SVal"
+        if isinstance(n, ast.Constant) and isinstance(n.value, (int, float)) and not isinstance(n.value, bool):
+            return f"(SConst {cq_Q(Fraction(n.value))})"
+        if isinstance(n, ast.UnaryOp) and isinstance(n.op, ast.USub) and isinstance(n.operand, ast.Constant) \
+                and isinstance(n.operand.value, (int, float)) and not isinstance(n.operand.value, bool):
+            return f"(SConst {cq_Q(-Fraction(n.operand.value))})"
+        if isinstance(n, ast.BinOp) and isinstance(n.op, ast.Mult):
+            return f"(SMul {self.sexpr(n.left)} {self.sexpr(n.right)})"
+        if isinstance(n, ast.BinOp) and isinstance(n.op, ast.Div):
+            return f"(SDiv {self.sexpr(n.left)} {self.sexpr(n.right)})"
+        if isinstance(n, ast.BinOp) and isinstance(n.op, ast.Pow):
+            r = n.right
+            if (isinstance(r, ast.UnaryOp) and isinstance(r.op, ast.USub) and isinstance(r.operand, ast.Constant)
+                    and r.operand.value == 1) or (isinstance(r, ast.Constant) and r.value == -1):
+                return f"(SInv {self.sexpr(n.left)})"
+        raise Refuse(f"{self.fname}: scale argument outside the grammar: " + ast.dump(n)[:200])
+
+    # -- control flow of the loop body
+    def _flow(self, node, own_loop=True):
+        """Does `node` contain something that decides whether / in which state the object is yielded: a yield, the scale
+        call, a return, or a continue/break that belongs to the block loop."""
+        for c in ast.walk(node):
+            if isinstance(c, (ast.Yield, ast.Return)) or c is self.call:
+                return True
+        if own_loop:
+            stack = [node]
+            while stack:
+                c = stack.pop()
+                if isinstance(c, (ast.Continue, ast.Break)):
+                    return True
+                for ch in ast.iter_child_nodes(c):
+                    if not isinstance(ch, _LOOPS + (ast.FunctionDef, ast.AsyncFunctionDef, ast.ClassDef, ast.Lambda)):
+                        stack.append(ch)
+        return False
+
+    def cond(self, ifnode):
+        k = self.conds.get(id(ifnode))
+        if k is None:
+            if self.mentions_unit(ifnode.test):
+                raise Refuse(f"{self.fname}: a second condition on the unit: {ast.unparse(ifnode.test)[:120]}")
+            k = self.conds[id(ifnode)] = len(self.conds)
+            self.cond_text.append(ast.unparse(ifnode.test))
+            if k >= MAX_CONDS:
+                raise Refuse(f"{self.fname}: more than {MAX_CONDS} conditions decide the path to the yield")
+        return k
+
+    def rebinds(self, node, scaled):
+        """The yielded name may be bound several times while the object is being built, but not after it was scaled."""
+        if scaled and self.target in _bound_names(node):
+            raise Refuse(f"{self.fname}: {self.target} is bound again after the scale statement")
+
+    def conv(self, stmts, scaled):
+        if not stmts:
+            return "TEnd"
+        s, rest = stmts[0], stmts[1:]
+        if s is self.scale_stmt:
+            return f"(TScale {self.conv(rest, True)})"
+        if isinstance(s, ast.Expr) and isinstance(s.value, ast.Yield):
+            return f"(TYield {self.conv(rest, scaled)})"
+        if isinstance(s, (ast.Continue, ast.Break, ast.Return, ast.Raise)):
+            return "TStop"
+        if isinstance(s, ast.If):
+            if self._flow(s):
+                self.rebinds(s.test, scaled)
+                return f"(TIf {self.cond(s)} {self.conv(list(s.body) + rest, scaled)} {self.conv(list(s.orelse) + rest, scaled)})"
+            self.rebinds(s, scaled)
+            return self.conv(rest, scaled)
+        self.rebinds(s, scaled)
+        if isinstance(s, _COMPOUND):
+            if self._flow(s, own_loop=not isinstance(s, _LOOPS + (ast.FunctionDef, ast.AsyncFunctionDef, ast.ClassDef))):
+                raise Refuse(f"{self.fname}: yield / scale / loop exit inside a {type(s).__name__} statement")
+            return self.conv(rest, scaled)
+        if self._flow(s, own_loop=False):
+            raise Refuse(f"{self.fname}: yield or scale call inside a {type(s).__name__} statement")
+        return self.conv(rest, scaled)
 
 
 def extract_scale(path, funcname):
     """Returns (coq sexpr, guarded: bool). Raises Refuse on anything outside the grammar."""
-    tree = ast.parse(open(path).read())
-    fns = [n for n in ast.walk(tree) if isinstance(n, ast.FunctionDef) and n.name == funcname]
-    if len(fns) != 1:
-        raise Refuse(f"{funcname}: {len(fns)} definitions")
-    fn = fns[0]
-    calls = [n for n in ast.walk(fn) if isinstance(n, ast.Call) and isinstance(n.func, ast.Attribute) and n.func.attr == "scale"]
-    if len(calls) != 1:
-        raise Refuse(f"{funcname}: {len(calls)} scale(...) calls (exactly one expected)")
-    call = calls[0]
-    if len(call.args) != 1 or call.keywords or not isinstance(call.func.value, ast.Name):
-        raise Refuse(f"{funcname}: scale call shape")
-    target = call.func.value.id
-    yields = [n for n in ast.walk(fn) if isinstance(n, ast.Yield)]
-    if not yields or not all(isinstance(y.value, ast.Name) and y.value.id == target for y in yields):
-        raise Refuse(f"{funcname}: the scaled object is not the yielded one")
-    # the statement holding the call: either directly in the for-body or the only statement of the unit guard
-    guarded = None
-    for n in ast.walk(fn):
-        if isinstance(n, ast.If) and any(c is call for s in n.body + n.orelse for c in ast.walk(s)):
-            t = n.test
-            ok = (isinstance(t, ast.Compare) and len(t.ops) == 1 and isinstance(t.ops[0], (ast.NotEq, ast.IsNot))
-                  and ((_is_unit_lookup(t.left) and _is_angstrom(t.comparators[0]))
-                       or (_is_angstrom(t.left) and _is_unit_lookup(t.comparators[0]))))
-            if not ok or n.orelse or len(n.body) != 1 or not (isinstance(n.body[0], ast.Expr) and n.body[0].value is call):
-                raise Refuse(f"{funcname}: guard of the scale call is not `DistanceUnit[source_units] != DistanceUnit.Angstrom`")
-            if guarded is not None:
-                raise Refuse(f"{funcname}: nested guards")
-            guarded = True
-    if guarded is None:
-        guarded = False
-    # source_units must not be rebound, DistanceUnit must be the enum of geometry.py
-    for n in ast.walk(fn):
-        if isinstance(n, (ast.Assign, ast.AugAssign, ast.AnnAssign)):
-            tg = n.targets if isinstance(n, ast.Assign) else [n.target]
-            for t in tg:
-                if isinstance(t, ast.Name) and t.id in ("source_units", "DistanceUnit"):
-                    raise Refuse(f"{funcname}: {t.id} rebound")
-    return _expr(call.args[0]), guarded
+    x = _Extractor(path, funcname)
+    return x.expr, x.guarded
+
+
+def _cq_comment(t):
+    return t.replace("(*", "( *").replace("*)", "* )")
 
 
 def gen_scale_text():
-    ex, gx = extract_scale(os.path.join(vlib.REPO, "molli/chem/geometry.py"), "yield_from_xyz")
-    em, gm = extract_scale(os.path.join(vlib.REPO, "molli/chem/structure.py"), "yield_from_mol2")
-    return ("(* regenerated by the fail-closed ast extractor of harness/c08.py on every run (tie S): the argument of the\n"
-            "   scale(...) call in yield_from_xyz / yield_from_mol2 and whether it sits under the != Angstrom guard *)\n"
-            "From Coq Require Import QArith.\nFrom Molli Require Import Model.XyzText.\n"
-            f"Definition xyz_scale_expr : sexpr := {ex}.\nDefinition xyz_scale_guarded : bool := {'true' if gx else 'false'}.\n"
-            f"Definition mol2_scale_expr : sexpr := {em}.\nDefinition mol2_scale_guarded : bool := {'true' if gm else 'false'}.\n")
+    xx = _Extractor(os.path.join(vlib.REPO, "molli/chem/geometry.py"), "yield_from_xyz")
+    xm = _Extractor(os.path.join(vlib.REPO, "molli/chem/structure.py"), "yield_from_mol2")
+    out = ("(* regenerated by the fail-closed ast extractor of harness/c08.py on every run (tie S): the argument of the\n"
+           "   scale(...) call in yield_from_xyz / yield_from_mol2, whether it sits under the != Angstrom guard, and the body\n"
+           "   of the block loop in continuation form (every path to `yield`, conditions opaque) *)\n"
+           "From Coq Require Import QArith.\nFrom Molli Require Import Model.XyzText Model.XyzEdit.\n")
+    for tag, x in (("xyz", xx), ("mol2", xm)):
+        out += (f"Definition {tag}_scale_expr : sexpr := {x.expr}.\n"
+                f"Definition {tag}_scale_guarded : bool := {'true' if x.guarded else 'false'}.\n"
+                f"Definition {tag}_tail : tail := {x.tail}.\n"
+                f"Definition {tag}_tail_conds : nat := {len(x.cond_text)}%nat.\n")
+        for k, t in enumerate(x.cond_text):
+            out += f"(* {tag} condition {k}: {_cq_comment(t)} *)\n"
+    return out
 
 
 # ------------------------------------------------------------------ writer side: micro-units
@@ -189,54 +366,411 @@ def multi_readers(ml, ctx, text):
     ]
 
 
-def unit_cases(ml, rng):
-    """(reader tag, unit name, callable returning coords array, expected coords)."""
-    from molli.chem import Molecule, ConformerEnsemble
-    from molli.chem.geometry import DistanceUnit, CartesianGeometry
-    import numpy as np
-    out = []
-    base = c10.rand_molecule(ml, rng, n=3, name="u", elems=["C", "N", "O"])
-    base.coords = np.array([[1.0, 0.0, 0.0], [0.0, -2.5, 0.25], [3.125, 4.0, -1.5]])
-    if base.n_bonds == 0:
-        base.connect(base.atoms[0], base.atoms[1])
-    for uname in DistanceUnit.__members__:
-        f = PHYS.get(uname)
-        if f is None:
-            continue
-        m = Molecule(base)
-        m.coords = base.coords * f
-        tx, tm = m.dumps_xyz(), m.dumps_mol2()
-        exp = base.coords
-        out.append(("xyz", "loads_xyz", uname, (lambda tx=tx, u=uname: Molecule.loads_xyz(tx, source_units=u).coords), exp))
-        out.append(("xyz", "loads_all_xyz", uname, (lambda tx=tx, u=uname: Molecule.loads_all_xyz(tx, source_units=u)[0].coords), exp))
-        out.append(("xyz", "geometry", uname, (lambda tx=tx, u=uname: CartesianGeometry.loads_xyz(tx, source_units=u).coords), exp))
-        out.append(("xyz", "ensemble", uname, (lambda tx=tx, u=uname: ConformerEnsemble.loads_xyz(tx + tx, source_units=u).coords[1]), exp))
-        out.append(("mol2", "loads_mol2", uname, (lambda tm=tm, u=uname: Molecule.loads_mol2(tm, source_units=u).coords), exp))
-        out.append(("mol2", "loads_all_mol2", uname, (lambda tm=tm, u=uname: Molecule.loads_all_mol2(tm, source_units=u)[0].coords), exp))
-        out.append(("mol2", "ensemble", uname, (lambda tm=tm, u=uname: ConformerEnsemble.loads_mol2(tm + tm, source_units=u).coords[1]), exp))
+# ---- unit law: every reader entry point x target class x charge-type header x every DistanceUnit member
+UNIT_SYMS = ["C", "N", "O"]
+UNIT_REF = [[1.0, 0.0, 0.0], [0.0, -2.5, 0.25], [3.125, 4.0, -1.5]]
+UNIT_SHIFT = [0.25, -0.5, 1.0]                         # second frame / block
+CHARGE_HEADERS = ["USER_CHARGES", "NO_CHARGES", "GASTEIGER", "MMFF94_CHARGES"]
+
+
+def unit_xyz_text(f):
+    """Two frames of the reference geometry expressed in a unit with f units per Angstrom (written by the harness)."""
+    out = ""
+    for k in range(2):
+        out += f"{len(UNIT_SYMS)}\nframe{k}\n"
+        for s, c in zip(UNIT_SYMS, UNIT_REF):
+            out += s + "".join(f" {(x + k * d) * f:.10f}" for x, d in zip(c, UNIT_SHIFT)) + "\n"
     return out
 
 
-def judge_units(ml, rep, rng):
+def unit_mol2_text(f, hdr):
+    out = ""
+    for k in range(2):
+        out += f"@<TRIPOS>MOLECULE\nu\n{len(UNIT_SYMS)} 2 0 0 0\nSMALL\n{hdr}\n\n@<TRIPOS>ATOM\n"
+        for i, (s, c) in enumerate(zip(UNIT_SYMS, UNIT_REF)):
+            xyz = "".join(f" {(x + k * d) * f:>18.10f}" for x, d in zip(c, UNIT_SHIFT))
+            out += f"{i + 1:>6} {s}{i + 1:<3}{xyz} {s + '.3':<6} 1 UNL1 {0.1 * (i - 1):.4f}\n"
+        out += "@<TRIPOS>BOND\n     1      1      2   1\n     2      2      3   1\n"
+    return out
+
+
+_SUBCLASSES = {}
+
+
+def unit_classes(fmt):
+    """Target classes: the library's and user subclasses of them (the readers build `cls(...)`)."""
+    from molli.chem import Molecule, Structure, CartesianGeometry
+    if not _SUBCLASSES:
+        _SUBCLASSES["MoleculeSubclass"] = type("MoleculeSubclass", (Molecule,), {})
+        _SUBCLASSES["StructureSubclass"] = type("StructureSubclass", (Structure,), {})
+    cl = {"Structure": Structure, "Molecule": Molecule, **_SUBCLASSES}
+    if fmt == "xyz":
+        cl = {"CartesianGeometry": CartesianGeometry, **cl}
+    return cl
+
+
+def unit_entry_points(fmt, cls_name):
+    if cls_name == "ConformerEnsemble":
+        return ["loads", "load:path", "load:stream"] + (["from_mol2"] if fmt == "mol2" else [])
+    return ["loads", "load:path", "load:stream", "loads_all", "load_all:path", "load_all:stream", "yield_from:stream"] + \
+        (["yield_from:str"] if fmt == "mol2" else [])
+
+
+def unit_call(ml, ctx, fmt, cls_name, api, hdr, uname, named):
+    """Runs one cell; returns the list of coordinate blocks the entry point handed out (one per frame it returns)."""
+    from molli.chem import ConformerEnsemble
+    f = PHYS[uname]
+    text = unit_xyz_text(f) if fmt == "xyz" else unit_mol2_text(f, hdr)
+    kw = {"source_units": uname}
+    if named:
+        kw["name"] = "given"
+    if ":path" in api:
+        src = os.path.join(ctx.sub("units"), f"u.{fmt}")
+        open(src, "w").write(text)
+    elif ":stream" in api:
+        src = io.StringIO(text)
+    else:
+        src = text
+    verb = api.split(":")[0]
+    if cls_name == "ConformerEnsemble":
+        fn = getattr(ConformerEnsemble, "from_mol2" if verb == "from_mol2" else f"{verb}_{fmt}")
+        e = fn(src, **kw)
+        return [e.coords[k] for k in range(e.n_conformers)]
+    cls = unit_classes(fmt)[cls_name]
+    if verb == "yield_from":
+        fn = getattr(cls, f"yield_from_{fmt}")
+        if fmt == "xyz":
+            return [g.coords for g in fn(src, **kw)]
+        return [g.coords for g in fn(src, kw.get("name"), uname)] if named else [g.coords for g in fn(src, source_units=uname)]
+    r = getattr(cls, f"{verb}_{fmt}")(src, **kw)
+    return [g.coords for g in r] if verb.endswith("_all") else [r.coords]
+
+
+def unit_cells(ml):
+    """(fmt, class, entry point, header or None, unit, name given) -- the whole product."""
+    from molli.chem.geometry import DistanceUnit
+    cells = []
+    for uname in DistanceUnit.__members__:
+        for fmt in ("xyz", "mol2"):
+            for hdr in ([None] if fmt == "xyz" else CHARGE_HEADERS):
+                for cls_name in list(unit_classes(fmt)) + ["ConformerEnsemble"]:
+                    for j, api in enumerate(unit_entry_points(fmt, cls_name)):
+                        cells.append((fmt, cls_name, api, hdr, uname, (j + len(cells)) % 3 == 0))
+    return cells
+
+
+def unit_judge_cell(ml, ctx, cell):
+    """None, or (what, detail) when the cell breaks the unit law."""
     import numpy as np
+    fmt, cls_name, api, hdr, uname, named = cell
+    r = c10.run_limited(lambda: [np.array(c, dtype=float) for c in unit_call(ml, ctx, fmt, cls_name, api, hdr, uname, named)])
+    if r[0] != "ok":
+        return (r[0], f"failed: {r[1]}")
+    got = r[1]
+    want_frames = 1 if api.split(":")[0] in ("loads", "load") and cls_name != "ConformerEnsemble" else 2
+    if len(got) != want_frames:
+        return ("frames", f"{len(got)} geometries returned, {want_frames} expected")
+    ref = np.array(UNIT_REF)
+    for k, g in enumerate(got):
+        exp = ref + k * np.array(UNIT_SHIFT)
+        if g.shape != exp.shape or not np.allclose(g, exp, rtol=2e-5, atol=2e-6):
+            return ("distances-changed", f"block {k}: expected first rows {exp[:2].tolist()} in Angstrom, got {g[:2].tolist() if g.size else g}")
+    return None
+
+
+def judge_units(ml, ctx, rep, rng):
     found = False
-    for fmt, api, uname, fn, exp in unit_cases(ml, rng):
-        rep.case(key=f"units:{fmt}:{api}:{uname}", sample={"reader": fmt, "api": api, "unit": uname})
-        rep.count(f"units:{fmt}")
-        r = c10.run_limited(fn)
-        if r[0] != "ok":
-            rep.violate(f"C08:units:{fmt}:{uname}:{r[0]}", f"{api}(..., source_units={uname!r}) failed: {r[1]}",
-                        {"kind": "units", "fmt": fmt, "api": api, "unit": uname})
-            found = True
+    reported = {}
+    cells = unit_cells(ml)
+    rng.shuffle(cells)          # consecutive calls differ in unit / class / header: a reader that remembers its last call shows
+    for cell in cells:
+        fmt, cls_name, api, hdr, uname, named = cell
+        if uname not in PHYS:
+            rep.count("units:member-without-physical-value")
             continue
-        got = np.asarray(r[1], dtype=float)
-        if got.shape != exp.shape or not np.allclose(got, exp, rtol=2e-5, atol=2e-6):
-            rep.violate(f"C08:units:{fmt}:{uname}:distances-changed",
-                        f"{api}: a geometry expressed in {uname} (1 A = {PHYS[uname]} {uname}) is not read back in Angstrom: "
-                        f"expected {exp[0].tolist()} got {got[0].tolist() if got.size else got}",
-                        {"kind": "units", "fmt": fmt, "api": api, "unit": uname})
+        rep.case(key=f"units:{fmt}:{cls_name}:{api}:{hdr}:{uname}",
+                 sample={"reader": fmt, "class": cls_name, "api": api, "header": hdr, "unit": uname})
+        rep.count(f"units:{fmt}")
+        rep.count(f"units:class={cls_name}")
+        rep.count(f"units:unit={uname}")
+        if hdr:
+            rep.count(f"units:mol2-header={hdr}")
+        v = unit_judge_cell(ml, ctx, cell)
+        if v:
+            sig = f"C08:units:{fmt}:{uname}:{v[0]}"
+            reported.setdefault(sig, []).append((cell, v[1]))
             found = True
+    for sig, lst in reported.items():
+        (fmt, cls_name, api, hdr, uname, named), detail = lst[0]
+        others = sorted({f"{c[1]}.{c[2]}" + (f"[{c[3]}]" if c[3] else "") for c, _ in lst[1:]})
+        rep.violate(sig, f"{cls_name} {api.split(':')[0]}_{fmt}({'header ' + hdr + ', ' if hdr else ''}source_units={uname!r}"
+                         f"{', name given' if named else ''}): a geometry expressed in {uname} (1 A = {PHYS[uname]} {uname}) is not "
+                         f"read back in Angstrom: {detail}" + (f"; also {len(lst) - 1} more cell(s): {', '.join(others[:12])}" if others else ""),
+                    {"kind": "units", "cell": [fmt, cls_name, api, hdr, uname, named]})
     return found
+
+
+# ---- write / edit / write sessions on one object
+SESSION_CLASSES = ["ConformerEnsemble", "ConformerEnsemble", "Molecule", "Structure", "CartesianGeometry"]
+WRITE_HOW = ["dumps_xyz", "dump_xyz:stream", "ml.dumps"]
+
+
+def gen_session(rng):
+    """A jsonable session: class, initial state, steps.  The generator tracks atom / frame counts so that every index is valid."""
+    cls = rng.choice(SESSION_CLASSES)
+    ens = cls == "ConformerEnsemble"
+    n = rng.randint(1, 5)
+    k = rng.randint(1, 4) if ens else 1
+    trip = lambda: [c10.rand_coord(rng) for _ in range(3)]
+    spec = {"cls": cls, "name": rng.choice(c10.NAMES), "syms": [rng.choice(c10.ELEMS) for _ in range(n)],
+            "frames": [[trip() for _ in range(n)] for _ in range(k)], "steps": []}
+    steps = spec["steps"]
+
+    def write():
+        if ens and rng.random() < 0.3:
+            steps.append(["write_frame", rng.randrange(k), rng.choice(["index", "held"]), rng.choice(WRITE_HOW[:2])])
+        else:
+            steps.append(["write", rng.choice(WRITE_HOW if cls in ("Molecule", "ConformerEnsemble") else WRITE_HOW[:2])])
+
+    if rng.random() < 0.9:
+        write()
+    for _ in range(rng.randint(1, 4)):
+        for _ in range(rng.randint(1, 3)):
+            ops = ["rename"]
+            if n >= 1:
+                ops += ["set_elem", "set_elem", "set_elem", "set_coord", "set_frame"]
+            if n >= 2:
+                ops += ["swap", "swap"]
+            if not ens:
+                ops += ["add_atom"] + (["del_atom"] if n >= 1 else [])
+            elif n >= 1:
+                ops += ["append_frame"]
+            op = rng.choice(ops)
+            if op == "set_elem":
+                steps.append([op, rng.randrange(n), rng.choice(c10.ELEMS), rng.choice(["atoms", "get_atom"])])
+            elif op == "swap":
+                i, j = rng.sample(range(n), 2)
+                steps.append([op, i, j])
+            elif op == "set_coord":
+                steps.append([op, rng.randrange(k), rng.randrange(n), trip()])
+            elif op == "set_frame":
+                steps.append([op, rng.randrange(k), [trip() for _ in range(n)], rng.choice(["slice", "conformer"])])
+            elif op == "rename":
+                steps.append([op, rng.choice(c10.NAMES)])
+            elif op == "add_atom":
+                steps.append([op, rng.choice(c10.ELEMS), trip()])
+                n += 1
+            elif op == "del_atom":
+                steps.append([op, rng.randrange(n)])
+                n -= 1
+            elif op == "append_frame":
+                steps.append([op, [trip() for _ in range(n)]])
+                k += 1
+        for _ in range(rng.randint(1, 2)):
+            write()
+    return spec
+
+
+def exec_session(ml, spec):
+    """Drives the real classes through the session.  Returns (writes, applied steps): for every write the text, the state the
+    object shows through its accessors at that moment [(elements, dummy flags, coords)] and the step; steps that molli
+    refused are dropped (and reported by the caller as such)."""
+    import numpy as np
+    from molli.chem import Molecule, Structure, CartesianGeometry, ConformerEnsemble, Atom, Element
+    cls = {"Molecule": Molecule, "Structure": Structure, "CartesianGeometry": CartesianGeometry}.get(spec["cls"])
+    ens = cls is None
+    base = (Molecule if ens else cls)(n_atoms=0, name=spec["name"])
+    for sym, c in zip(spec["syms"], spec["frames"][0]):
+        base.add_atom(Atom(sym), c)
+    if ens:
+        obj = ConformerEnsemble(base, n_conformers=len(spec["frames"]))
+        obj.coords = np.array(spec["frames"], dtype=float).reshape(len(spec["frames"]), len(spec["syms"]), 3)
+        held = [obj[i] for i in range(obj.n_conformers)]          # conformer handles taken BEFORE any edit
+    else:
+        obj = base
+    state = lambda g: ([int(a.element.z) for a in g.atoms], [a.atype.name == "Dummy" for a in g.atoms],
+                       [tuple(float(x) for x in c) for c in np.asarray(g.coords, dtype=float).reshape(-1, 3)])
+
+    def text_of(g, how):
+        if how == "dumps_xyz":
+            return g.dumps_xyz()
+        if how == "dump_xyz:stream":
+            buf = io.StringIO()
+            g.dump_xyz(buf)
+            return buf.getvalue()
+        return ml.dumps(g, "xyz")
+
+    writes, applied, refused = [], [], []
+    for st in spec["steps"]:
+        op = st[0]
+        try:
+            if op == "write":
+                txt = text_of(obj, st[1])
+                frames = [state(obj[i]) for i in range(obj.n_conformers)] if ens else [state(obj)]
+                writes.append({"text": txt, "orig": frames, "step": st, "name": str(obj.name) if hasattr(obj, "name") else None})
+            elif op == "write_frame":
+                if st[2] == "held" and st[1] >= len(held):
+                    st = [st[0], st[1], "index", st[3]]
+                c = held[st[1]] if st[2] == "held" else obj[st[1]]
+                txt = text_of(c, st[3])
+                writes.append({"text": txt, "orig": [state(c)], "step": st, "name": str(c.name)})
+            elif op == "set_elem":
+                (obj.atoms[st[1]] if st[3] == "atoms" else obj.get_atom(st[1])).element = Element.get(st[2])
+            elif op == "swap":
+                a, b = obj.atoms[st[1]], obj.atoms[st[2]]
+                a.element, b.element = b.element, a.element
+            elif op == "set_coord":
+                if ens:
+                    obj.coords[st[1], st[2]] = st[3]
+                else:
+                    obj.coords[st[2]] = st[3]
+            elif op == "set_frame":
+                arr = np.array(st[2], dtype=float).reshape(-1, 3)
+                if ens and st[3] == "conformer":
+                    obj[st[1]].coords = arr
+                elif ens:
+                    obj.coords[st[1]] = arr
+                else:
+                    obj.coords = arr
+            elif op == "rename":
+                obj.name = st[1]
+            elif op == "add_atom":
+                obj.add_atom(Atom(st[1]), st[2])
+            elif op == "del_atom":
+                obj.del_atom(st[1])
+            elif op == "append_frame":
+                g = Molecule(obj[0])
+                g.coords = np.array(st[1], dtype=float).reshape(-1, 3)
+                obj.append(g)
+            else:
+                raise ValueError(op)
+            applied.append(st)
+        except Exception as e:  # noqa: an edit molli refuses is not part of this property
+            if op in ("write", "write_frame"):
+                writes.append({"text": None, "orig": [], "step": st, "error": type(e).__name__})
+                applied.append(st)
+            else:
+                refused.append((st, type(e).__name__))
+                break               # the counts tracked by the generator are no longer valid
+    return writes, applied, refused
+
+
+def judge_session(ml, spec, writes):
+    """Oracle: every write reads back as the state the object had when it was written."""
+    from molli.chem import ConformerEnsemble
+    for n, w in enumerate(writes):
+        where = f"write #{n} ({' '.join(str(x) for x in w['step'])}) of a {spec['cls']}"
+        if w["text"] is None:
+            return (f"C08:xyz:session:cannot-write:{w.get('error')}", f"{where}: the writer raised {w.get('error')}")
+        back = c10.observe(ml, "xyz", w["text"])
+        v = judge_roundtrip("xyz:session", w["orig"], back)
+        if v:
+            return (v[0], f"{where} after {n} earlier write(s) and in-place edits: {v[1]}")
+        if w["step"][0] == "write" and spec["cls"] == "ConformerEnsemble":
+            eb = c10.run_limited(lambda: ConformerEnsemble.loads_xyz(w["text"]))
+            if eb[0] != "ok":
+                return ("C08:xyz:session:ensemble-readback", f"{where}: ConformerEnsemble.loads_xyz failed: {eb[1]}")
+            e2 = eb[1]
+            orig2 = [([int(a.element.z) for a in e2.atoms], [False] * e2.n_atoms, [tuple(float(x) for x in c) for c in e2.coords[k]])
+                     for k in range(e2.n_conformers)]
+            v = judge_roundtrip("xyz:session:ensemble-readback", w["orig"],
+                                ("ok", [{"n_atoms": len(o[0]), "elems": o[0], "coords": o[2], "dummy": o[1]} for o in orig2]))
+            if v:
+                return (v[0], f"{where}, read back as an ensemble: {v[1]}")
+    return None
+
+
+def trip_term(p):
+    return f"({dec_term(float(p[0]))}, {dec_term(float(p[1]))}, {dec_term(float(p[2]))})"
+
+
+def session_term(ml, spec, applied, writes):
+    """Coq case: the INITIAL state, the steps, and the lines of every write (None when a text is not plain ASCII)."""
+    from molli.chem import Element
+    z = lambda sym: cq_Z(int(Element.get(sym).z))
+    e0 = (f"(mk_wens (s2l {cq_str(spec['name'])}) {cq_list(z(s) for s in spec['syms'])} "
+          f"{cq_list(cq_list(trip_term(p) for p in f) for f in spec['frames'])})")
+    steps = []
+    for st in applied:
+        op = st[0]
+        if op == "write":
+            steps.append("WWriteAll")
+        elif op == "write_frame":
+            steps.append(f"(WWriteFrame {cq_nat(st[1])})")
+        elif op == "set_elem":
+            steps.append(f"(WEdit (WSetElem {cq_nat(st[1])} {z(st[2])}))")
+        elif op == "swap":
+            steps.append(f"(WEdit (WSwapElem {cq_nat(st[1])} {cq_nat(st[2])}))")
+        elif op == "set_coord":
+            steps.append(f"(WEdit (WSetCoord {cq_nat(st[1])} {cq_nat(st[2])} {trip_term(st[3])}))")
+        elif op == "set_frame":
+            steps.append(f"(WEdit (WSetFrame {cq_nat(st[1])} {cq_list(trip_term(p) for p in st[2])}))")
+        elif op == "rename":
+            steps.append(f"(WEdit (WRename (s2l {cq_str(st[1])})))")
+        elif op == "add_atom":
+            steps.append(f"(WEdit (WAddAtom {z(st[1])} {trip_term(st[2])}))")
+        elif op == "del_atom":
+            steps.append(f"(WEdit (WDelAtom {cq_nat(st[1])}))")
+        elif op == "append_frame":
+            steps.append(f"(WEdit (WAppendFrame {cq_list(trip_term(p) for p in st[1])}))")
+    outs = []
+    for w in writes:
+        if w["text"] is None:
+            return None
+        lines = c10.to_lines(w["text"])
+        if not all(all(32 <= ord(c) < 127 for c in l) for l in lines):
+            return None
+        outs.append(c10.lines_term(lines))
+    return f"({e0}, {cq_list(steps)}, {cq_list(outs)})"
+
+
+def session_profile(applied):
+    """Which kinds of write-after-write the session contains (for the measured distribution)."""
+    tags, seen_write, edits = [], False, []
+    for st in applied:
+        if st[0] in ("write", "write_frame"):
+            if seen_write and edits:
+                changing = any(e in ("add_atom", "del_atom") for e in edits)
+                elem = any(e in ("set_elem", "swap") for e in edits)
+                tags.append("rewrite-after-edit:" + ("atom-count-changed" if changing else
+                                                     "elements-changed-same-count" if elem else "coords-or-name-only"))
+            elif seen_write:
+                tags.append("rewrite-without-edit")
+            seen_write, edits = True, []
+        else:
+            edits.append(st[0])
+    return tags
+
+
+def run_sessions(ml, ctx, rep, n_sessions):
+    rng = ctx.rng
+    scases, specs = [], []
+    for _ in range(n_sessions):
+        spec = gen_session(rng)
+        r = c10.run_limited(lambda: exec_session(ml, spec), limit=20)
+        if r[0] != "ok":
+            rep.violate(f"C08:xyz:session:{r[0]}", f"a write/edit session on a {spec['cls']} did not complete: {r[1]}",
+                        {"kind": "session", "spec": spec})
+            continue
+        writes, applied, refused = r[1]
+        for st, err in refused:
+            rep.count(f"session:edit-refused:{st[0]}:{err}")
+        rep.case(key="sess:" + json.dumps([spec["cls"], spec["syms"], applied], sort_keys=True),
+                 sample={"kind": "session", "cls": spec["cls"], "steps": [s[0] for s in applied]})
+        rep.count(f"session:{spec['cls']}")
+        rep.count(f"session:writes={min(len(writes), 6)}")
+        for st in applied:
+            rep.count(f"session:step:{st[0]}" + (f":{st[2]}" if st[0] == "write_frame" else ""))
+        for t in session_profile(applied):
+            rep.count("session:" + t)
+        v = judge_session(ml, spec, writes)
+        if v:
+            rep.violate(v[0], v[1], {"kind": "session", "spec": spec})
+        term = session_term(ml, spec, applied, writes)
+        if term is not None:
+            scases.append(term)
+            specs.append(spec)
+    return scases, specs
 
 
 # ------------------------------------------------------------------ main
@@ -245,18 +779,30 @@ HEAD = ("From Coq Require Import List ZArith NArith QArith String Ascii.\n"
         "Import ListNotations.\nOpen Scope string_scope.\n")
 
 
+HEAD_S = ("From Coq Require Import List ZArith NArith QArith String Ascii.\n"
+          "From Molli Require Import Common.ParseStr Model.Parse Model.XyzText Model.XyzEdit Gen.XyzElements.\n"
+          "Import ListNotations.\nOpen Scope string_scope.\n")
+
+
 def run(ctx, rep):
     warnings.simplefilter("ignore")
     import molli as ml
     from molli.chem import Molecule, ConformerEnsemble, Atom, Element, AtomType
     rng = ctx.rng
     rep.rule = ("random geometries (0..6 atoms, all kinds of coordinates, dummy atoms) and ensembles (1..4 frames) written by "
-                "dumps_xyz and read back; writer text and reader result compared with the model inside Coq; every "
-                "DistanceUnit member x {xyz, mol2} x {loads, loads_all, geometry, ensemble}; distinct by written text / (reader, api, unit)")
-    rep.trusted += ["harness/c08.py: T-emitters for DistanceUnit / Element, the ast extractor of the scale(...) argument (fail-closed), "
+                "dumps_xyz and read back; writer text and reader result compared with the model inside Coq; write/edit/write "
+                "sessions on one object (ensembles, conformers held across edits, the three geometry classes; element / swap / "
+                "coordinate / frame / name / add / delete / append edits; three ways of writing), every write judged against the "
+                "state at that moment and compared with the model's own state evolution inside Coq; every DistanceUnit member "
+                "(aliases included) x {xyz, mol2} x every class-level reader entry point (str / path / stream) x target class "
+                "(library classes, user subclasses, ensemble) x charge-type header, every returned block compared; distinct by "
+                "written text / session / unit cell")
+    rep.trusted += ["harness/c08.py: T-emitters for DistanceUnit / Element, the ast extractor of the scale(...) argument and of the paths of the block loop to its yield (fail-closed; conditions other than the unit guard are opaque), "
                     "exact micro-unit rounding of written coordinates (fractions)",
                     "CPython: format(x, '12.6f') and float() are correctly rounded; str.split / int() (modelled for ASCII)",
-                    "CartesianGeometry.scale multiplies the coordinates by its argument (observed by the unit oracle, not proved)"]
+                    "CartesianGeometry.scale multiplies the coordinates by its argument (observed by the unit oracle, not proved)",
+                    "session edits are applied through molli's public accessors (atoms[i].element, coords rows, name, add_atom, "
+                    "del_atom, ConformerEnsemble.append); the state a write is judged against is read from the same object"]
     rep.assumptions += ["ASCII names without line breaks", "coordinates are finite floats",
                         "physical unit values used by the oracle and by C08_unit_values: 1 A = 1.8897259886 Bohr = 100 pm = 0.1 nm = 1e5 fm"]
     # --- regenerate Gen (T, S)
@@ -270,15 +816,9 @@ def run(ctx, rep):
             refusal = str(e)
     ok, out, where = vlib.build_props(ctx, rep, "C08")
     # --- units oracle (also the search when the S/T obligations break)
-    found = judge_units(ml, rep, rng)
-    if refusal:
-        rep.oblig("S-extraction:scale-argument", False)
-        vlib.broken_obligation(rep, "C08_units(S-extraction)", refusal, found)
-    else:
-        rep.oblig("S-extraction:scale-argument", True)
-    if not ok:
-        vlib.broken_obligation(rep, "C08_props", f"{where}\n{out[-1500:]}", found)
-        return
+    found = judge_units(ml, ctx, rep, rng)
+    rep.oblig("S-extraction:scale-argument", not refusal)      # a refusal is judged at the end, after every family has run
+    props_broken = None if ok else f"{where}\n{out[-1500:]}"      # judged at the end: the families below still run
     # --- writer / reader correspondence
     objs = []
     n_obj = 220 if not ctx.thorough else 1500
@@ -358,6 +898,17 @@ def run(ctx, rep):
     bad = vlib.run_shards(ctx, rep, "write", HEAD, "(chk_xyz_write element_symbols)", wcases, shard=150)
     head_r = c10.header_for("xyz", bases, table)
     bad2 = vlib.run_shards(ctx, rep, "read", head_r, "chk", rcases, shard=150)
+    # --- write / edit / write sessions on one object: oracle + the model's own state evolution inside Coq
+    scases, sspecs = run_sessions(ml, ctx, rep, 140 if not ctx.thorough else 1200)
+    bad3 = vlib.run_shards(ctx, rep, "session", HEAD_S, "(chk_xyz_session element_symbols)", scases, shard=70)
+    if bad3 is None:
+        vlib.broken_obligation(rep, "corr_session", json.dumps(rep.extra.get("shard_errors", ""))[-1500:],
+                               any(v.sig.startswith("C08:xyz:session") for v in rep.violations))
+    elif bad3:
+        has = any(v.sig.startswith("C08:xyz:session") for v in rep.violations)
+        for i in bad3[:10]:
+            rep.violate("C08:xyz:model-mismatch:session", f"model and implementation disagree on a text written in session {i}: "
+                        + json.dumps(sspecs[i])[:400], {"kind": "session", "spec": sspecs[i]}, no_input=not has)
     for nm, b in (("write", bad), ("read", bad2)):
         if b is None:
             vlib.broken_obligation(rep, f"corr_{nm}", json.dumps(rep.extra.get("shard_errors", ""))[-1500:], found)
@@ -366,6 +917,10 @@ def run(ctx, rep):
             for i in b[:10]:
                 rep.violate(f"C08:xyz:model-mismatch:{nm}", f"model and implementation disagree on the {nm} side of case {i}: "
                             + (wcases[i][:300] if nm == "write" else rcases[i][:300]), {"kind": nm, "index": i}, no_input=not has)
+    if refusal:
+        vlib.broken_obligation(rep, "C08_units(S-extraction)", refusal, found or any(not v.no_input for v in rep.violations))
+    if props_broken:
+        vlib.broken_obligation(rep, "C08_props", props_broken, found or any(not v.no_input for v in rep.violations))
     return confirm_known(ml)
 
 
@@ -384,12 +939,18 @@ def replay(ctx, data):
     import molli as ml
     out = []
     if data.get("kind") == "units":
-        import numpy as np
-        for fmt, api, uname, fn, exp in unit_cases(ml, ctx.rng):
-            if (fmt, api, uname) == (data["fmt"], data["api"], data["unit"]):
-                r = c10.run_limited(fn)
-                if r[0] != "ok" or not np.allclose(np.asarray(r[1], dtype=float), exp, rtol=2e-5, atol=2e-6):
-                    out.append(vlib.Violation(f"C08:units:{fmt}:{uname}", f"{api} with source_units={uname}: {r}"))
+        cell = tuple(data["cell"])
+        v = unit_judge_cell(ml, ctx, cell)
+        if v:
+            out.append(vlib.Violation(f"C08:units:{cell[0]}:{cell[4]}:{v[0]}", f"{cell}: {v[1]}"))
+    elif data.get("kind") == "session":
+        r = c10.run_limited(lambda: exec_session(ml, data["spec"]), limit=20)
+        if r[0] != "ok":
+            out.append(vlib.Violation(f"C08:xyz:session:{r[0]}", str(r[1])))
+        else:
+            v = judge_session(ml, data["spec"], r[1][0])
+            if v:
+                out.append(vlib.Violation(v[0], v[1]))
     elif data.get("kind") == "roundtrip":
         text = data["text"]
         back = c10.observe(ml, "xyz", text)
